@@ -37,6 +37,7 @@ type progSpec struct {
 	hog     string // node whose CPU is exhausted by a non-preemptible CPU-only pod of qa: the pending pods
 	// (500*(g+1) mCPU, the running ones 500 each) cannot run there, its pods are no eligible victims
 	depts map[string]string // leaf queue -> department (nil: all under the one department of cycle.Build)
+	tree  *qtree            // an arbitrary queue hierarchy (any depth; overrides depts)
 	shape string            // multi-queue preempt clusters: which queue roles were generated
 	// corpus: the replayed witness of known finding C05-signature-shortcut; the label carries the
 	// witness tag only when the run shows that explanation (see sigWitness)
@@ -145,6 +146,156 @@ func genReclaim(r *u.Rng, sigs bool) progSpec {
 	ps := progSpec{kind: 1, cluster: c, gpus: g}
 	addHog(r, &ps)
 	return ps
+}
+
+// addReclaimTree hangs the leaf queues of a reclaim cluster (qa holds the pending jobs, qb / qc run
+// the pods to reclaim) into a queue tree of MIXED depth: one or two top-level queues; every leaf
+// either directly under a top-level queue or one or two inner queues deeper (3-4 levels in all);
+// shape = same-depth / reclaimer-deeper / victim-deeper (depth of qa against depth of qb), one third
+// each; qc (when there is one) on a chain of its own or below one of the inner queues of qa's or
+// qb's chain (then an ANCESTOR is what the two compete on). Quotas at every level: in every second
+// tree each inner queue deserves exactly the sum of the leaf quotas below it; in the others an inner
+// queue deserves that sum (3/5), one unit more (1/10), one unit less (1/10: the chain of the
+// reclaimer, or the victims' side, may then be what blocks or permits) or is unlimited (1/5); a
+// top-level queue is unlimited (2/3) or deserves the sum.
+func addReclaimTree(r *u.Rng, ps *progSpec) {
+	c := ps.cluster
+	t := &qtree{Parent: map[string]string{}}
+	inner := map[string]bool{}
+	add := func(name, parent string) {
+		if !inner[name] {
+			inner[name] = true
+			t.Parent[name] = parent
+			t.Inner = append(t.Inner, innerQueue{Name: name, OverQuota: 1, Priority: 100})
+		}
+	}
+	want := u.Pick(r, []string{"same-depth", "reclaimer-deeper", "victim-deeper"})
+	var ea, eb int
+	switch want {
+	case "same-depth":
+		ea = r.Range(0, 2)
+		eb = ea
+	case "reclaimer-deeper":
+		eb = r.Range(0, 1)
+		ea = r.Range(eb+1, 2)
+	default:
+		ea = r.Range(0, 1)
+		eb = r.Range(ea+1, 2)
+	}
+	rootA, rootB := "org", "org"
+	if r.Chance(1, 5) {
+		rootB = "org2"
+	}
+	hang := func(leaf, root, tag string, extra int) {
+		add(root, "")
+		parent := root
+		for i := 1; i <= extra; i++ {
+			name := fmt.Sprintf("%s%d", tag, i)
+			add(name, parent)
+			parent = name
+		}
+		t.Parent[leaf] = parent
+	}
+	hang("qa", rootA, "a", ea)
+	hang("qb", rootB, "b", eb)
+	if hasQueue(c, "qc") {
+		var under []string
+		for i := 1; i <= ea; i++ {
+			under = append(under, fmt.Sprintf("a%d", i))
+		}
+		for i := 1; i <= eb; i++ {
+			under = append(under, fmt.Sprintf("b%d", i))
+		}
+		if len(under) > 0 && r.Chance(1, 2) {
+			t.Parent["qc"] = u.Pick(r, under)
+		} else {
+			hang("qc", u.Pick(r, []string{rootA, rootB}), "c", r.Range(0, 2))
+		}
+	}
+	// quotas of the inner queues
+	below := map[string]float64{}
+	for _, q := range c.Queues {
+		for _, a := range t.chain(q.Name)[1:] {
+			below[a] += q.Deserved
+		}
+	}
+	exact := r.Bool() // every inner queue deserves exactly the sum below it
+	for i := range t.Inner {
+		q := &t.Inner[i]
+		sum := below[q.Name]
+		if t.Parent[q.Name] == "" {
+			q.Deserved = sum
+			if r.Chance(2, 3) {
+				q.Deserved = -1
+			}
+			continue
+		}
+		if exact {
+			q.Deserved = sum
+			continue
+		}
+		switch k := r.Intn(10); {
+		case k < 6:
+			q.Deserved = sum
+		case k < 7:
+			q.Deserved = sum + 1
+		case k < 8 && sum >= 1:
+			q.Deserved = sum - 1
+		case k < 8:
+			q.Deserved = sum
+		default:
+			q.Deserved = -1
+		}
+	}
+	ps.tree = t
+	da, db := len(t.chain("qa")), len(t.chain("qb"))
+	switch {
+	case da == db:
+		ps.shape = "same-depth"
+	case da > db:
+		ps.shape = "reclaimer-deeper"
+	default:
+		ps.shape = "victim-deeper"
+	}
+}
+
+// readmeTree: the cluster of seeded/C05-2 (one 4-GPU node filled by four preemptible pods of
+// over-quota-queue, deserved 2; one pending job in team1, deserved 2, nothing allocated) under the
+// top-level queue org, with the two leaves at the given numbers of inner queues below org.
+func readmeTree(reclaimerExtra, victimExtra int) progSpec {
+	c := cycle.Cluster{
+		Nodes: []core.NodeSpec{{Name: "node0", Cpu: nodeCPU, Mem: 64 << 30, Gpus: 4, Pods: 110}},
+		Queues: []cycle.Queue{{Name: "team1", Deserved: 2, OverQuota: 1, Priority: 100},
+			{Name: "over-quota-queue", Deserved: 2, OverQuota: 1, Priority: 100}},
+		Actions: []string{"allocate", "reclaim"},
+	}
+	for i := 0; i < 4; i++ {
+		name := fmt.Sprintf("v%d", i+1)
+		c.Jobs = append(c.Jobs, cycle.Job{Name: name, Queue: "over-quota-queue", Priority: 50, MinMember: 1, AgeMinutes: 60 + i, StartedMins: 30,
+			Pods: []core.PodSpec{unitPod(name+"-0", "node0", pod_status.Running)}})
+	}
+	c.Jobs = append(c.Jobs, cycle.Job{Name: "p1", Queue: "team1", Priority: 50, MinMember: 1, AgeMinutes: 40,
+		Pods: []core.PodSpec{pendingPod("p1-0", 4)}})
+	t := &qtree{Parent: map[string]string{}, Inner: []innerQueue{{Name: "org", Deserved: -1, OverQuota: 1, Priority: 100}}}
+	hang := func(leaf, tag string, extra int) {
+		parent := "org"
+		for i := 1; i <= extra; i++ {
+			name := fmt.Sprintf("%s%d", tag, i)
+			t.Parent[name] = parent
+			t.Inner = append(t.Inner, innerQueue{Name: name, Deserved: 2, OverQuota: 1, Priority: 100})
+			parent = name
+		}
+		t.Parent[leaf] = parent
+	}
+	hang("team1", "dept", reclaimerExtra)
+	hang("over-quota-queue", "vdept", victimExtra)
+	shape := "same-depth"
+	if reclaimerExtra > victimExtra {
+		shape = "reclaimer-deeper"
+	} else if reclaimerExtra < victimExtra {
+		shape = "victim-deeper"
+	}
+	return progSpec{kind: 1, cluster: c, gpus: 4, tree: t, shape: shape}
 }
 
 // genPreempt: one queue; running pods of low priorities fill the cluster;
@@ -378,7 +529,14 @@ func popOrder(ssn *framework.Session, action framework.ActionType) []string {
 func ProgCase(ps progSpec, cfg Config, tag string, hide map[string]bool) (term, label string, st map[string]int) {
 	st = map[string]int{}
 	c := ps.cluster
-	b, tr := SetupDepts(c, cfg, ps.depts)
+	tree := ps.tree
+	if tree == nil && ps.depts != nil {
+		tree = deptTree(c, ps.depts)
+	}
+	b, tr := SetupTree(c, cfg, tree)
+	if tree == nil {
+		tree = deptTree(c, nil) // what cycle.Build opens
+	}
 	ids := core.NewIds()
 	for _, n := range c.Nodes {
 		ids.Of("n:" + n.Name)
@@ -387,6 +545,9 @@ func ProgCase(ps progSpec, cfg Config, tag string, hide map[string]bool) (term, 
 		ids.Of("j:" + j.Name)
 	}
 	for _, q := range c.Queues {
+		ids.Of("q:" + q.Name)
+	}
+	for _, q := range tree.Inner {
 		ids.Of("q:" + q.Name)
 	}
 	jobOfPod := map[string]string{}
@@ -406,20 +567,36 @@ func ProgCase(ps progSpec, cfg Config, tag string, hide map[string]bool) (term, 
 		for _, p := range j.Pods {
 			if p.Status == pod_status.Running && p.Gpus > 0 {
 				used[p.Node]++
-				alloc[j.Queue]++
-				if !preemptible(j) {
-					allocNP[j.Queue]++
+				// the queue and every ancestor (as the proportion plugin keeps its books)
+				for _, q := range tree.chain(j.Queue) {
+					alloc[q]++
+					if !preemptible(j) {
+						allocNP[q]++
+					}
 				}
 			}
 		}
 	}
 	// fair share as the proportion plugin computed it at session open (1/100 units)
 	fair := map[string]int64{}
+	type qrow struct {
+		name     string
+		deserved float64
+	}
+	var qrows []qrow // every queue of the hierarchy: the leaf queues, then the inner ones
 	for _, q := range c.Queues {
-		if qi, ok := b.Ssn.ClusterInfo.Queues[common_info.QueueID(q.Name)]; ok {
+		qrows = append(qrows, qrow{q.Name, q.Deserved})
+	}
+	for _, q := range tree.Inner {
+		qrows = append(qrows, qrow{q.Name, q.Deserved})
+	}
+	for _, q := range qrows {
+		if qi, ok := b.Ssn.ClusterInfo.Queues[common_info.QueueID(q.name)]; ok {
 			if fs := b.Ssn.QueueFairShare(qi); fs != nil {
-				fair[q.Name] = int64(fs.GetGpusQuota()*100 + 0.5)
+				fair[q.name] = int64(fs.GetGpusQuota()*100 + 0.5)
 			}
+		} else {
+			st["queue-missing-in-session"]++
 		}
 	}
 	// the actions one by one; the pop order of the pending jobs is read off the session right
@@ -456,8 +633,18 @@ func ProgCase(ps progSpec, cfg Config, tag string, hide map[string]bool) (term, 
 		units = append(units, fmt.Sprintf("(mkSN %s %s %s)", u.Pos(ids.Of("n:"+n.Name)), u.Z(n.Gpus-used[n.Name]), u.Z(0)))
 		total += n.Gpus
 	}
-	for _, q := range c.Queues {
-		queues = append(queues, fmt.Sprintf("(mkPQ %s %s %s %s %s)", u.Pos(ids.Of("q:"+q.Name)), u.Z(int64(q.Deserved)), u.Z(alloc[q.Name]), u.Z(allocNP[q.Name]), u.Z(fair[q.Name])))
+	for _, q := range qrows {
+		par := tree.Parent[q.name]
+		des := int64(q.deserved)
+		if q.deserved < 0 {
+			des = -1 // unlimited
+		}
+		parent := "None"
+		if par != "" {
+			parent = "(Some " + u.Pos(ids.Of("q:"+par)) + ")"
+		}
+		queues = append(queues, fmt.Sprintf("(mkPQ %s %s %s %s %s %s)", u.Pos(ids.Of("q:"+q.name)), parent,
+			u.Z(des), u.Z(alloc[q.name]), u.Z(allocNP[q.name]), u.Z(fair[q.name])))
 	}
 	rj := func(name string) string {
 		j := jobs[name]
@@ -546,7 +733,10 @@ func ProgCase(ps progSpec, cfg Config, tag string, hide map[string]bool) (term, 
 		}
 	}
 	multi := ""
-	if ps.depts != nil || len(c.Queues) > 1 && ps.kind == 2 {
+	if ps.tree != nil {
+		multi = fmt.Sprintf(" tree=%s[%s]", ps.shape, ps.tree.describe(c))
+		st["reclaim-tree:"+ps.shape]++
+	} else if ps.depts != nil || len(c.Queues) > 1 && ps.kind == 2 {
 		var qs []string
 		for _, q := range c.Queues {
 			d := ps.depts[q.Name]
